@@ -58,6 +58,10 @@ It will never drop any data except the container by itself.
 This is to be used in custom allocators."#,
     );
 
+    // It never holds any data.
+    scope.raw("unsafe impl<const CAP: usize> Send for RecordUninitialized<CAP> {}");
+    scope.raw("unsafe impl<const CAP: usize> Sync for RecordUninitialized<CAP> {}");
+
     let mut prev_record_spec: Option<RecordSpec> = None;
 
     let mut type_size_assertions = BTreeSet::new();
